@@ -8,13 +8,17 @@ open PolyVerif PolyVerif.Ligate PolyVerif.Transform PolyVerif.Spec.Rings
 abstract cases (generator → Lean):
   `lig  tag  frags  perm1 perm2 perm3`      frags = `seq,fwd,rev,flip;…`  (flip = 0/1: supply the fragment flipped)
   `gg   tag  enzyme  parts  perm1 perm2 perm3`
-       parts = `seq,fwd,rev,flip,shape,padL,padR,sp1,sp2,rot,pflip;…` (a designed fragment on a carrier) or
-               `raw,shape` (a part without recognition site)
+       parts = `shape,rot,pflip,lc,segs;…`   shape C|L, rot = rotation of a circular carrier, pflip = supply the part on
+               its other strand, lc = supply it in lower case, segs = `+`-joined layout segments:
+                 `p:SEQ`                      filler without recognition site
+                 `i:seq/fwd/rev/flip/sp1/sp2` an insert: site sp1 fwd seq rev sp2 rc(site)  (flip: the fragment flipped)
+                 `F:`  /  `R:`                a lone forward / reverse recognition site
 requests (Lean → harness):
   `ligate pool0 pool1 pool2 pool3`           pool = `seq,fwd,rev;…`  (pool0 in the given order, then the three shuffles)
   `goldengate enzyme parts0 parts1 parts2 parts3`   parts = `seq:C;seq:L;…`
 replies:
-  `ok race|norace run0 run1 run2 run3 [cut]`  run = `n:c1,c2,…`; cut = fragments of CutWithEnzymeByName per part of parts0, `seq,fwd,rev;…|…`
+  `ok race|norace run0 run1 run2 run3 [cut]`  run = `n:c1:C,c2:C,…` (sequence and Circular flag of every returned Part);
+       cut = fragments of CutWithEnzymeByName per part of parts0, `seq,fwd,rev;…|…`
 -/
 
 def splitList (sep : String) (s : String) : List String := if s.isEmpty then [] else s.splitOn sep
@@ -57,30 +61,79 @@ structure PartSpec where
   expect : List Fragment
   wf : Bool
 
-def countOcc (pat s : Str) : Nat :=
-  (List.range (s.length + 1 - pat.length)).countP fun i => (s.drop i).take pat.length == pat
+def countOcc (pat : Str) : Str → Nat
+  | [] => if pat.isEmpty then 1 else 0
+  | c :: cs => (if pat.isPrefixOf (c :: cs) then 1 else 0) + countOcc pat cs
 
 /-- number of recognition sites on either strand, on the linear or cyclic word -/
-def siteCount (e : Enzyme) (p : Part) : Nat × Nat :=
-  let w := if p.circular then p.seq ++ p.seq.take (e.site.length - 1) else p.seq
+def siteCount (e : Enzyme) (seq : Str) (circular : Bool) : Nat × Nat :=
+  let w := if circular then seq ++ seq.take (e.site.length - 1) else seq
   (countOcc e.site w, countOcc (revComp e.site) w)
+
+/-- a cut of the independent layout: where the fragment text starts (forward site) or ends (reverse site) -/
+structure Cut where
+  pos : Nat
+  fwd : Bool
+  ok : Bool := true
+
+/-- lay the segments out left to right: the unrotated top-strand text and its cuts in order -/
+def layout (e : Enzyme) : List String → Str → List Cut → Option (Str × List Cut)
+  | [], body, cuts => some (body, cuts.reverse)
+  | seg :: rest, body, cuts =>
+    match seg.splitOn ":" with
+    | ["p", w] => layout e rest (body ++ w.toList) cuts
+    | ["F", _] => layout e rest (body ++ e.site) (⟨body.length + e.site.length + e.skip, true, true⟩ :: cuts)
+    | ["R", _] => layout e rest (body ++ revComp e.site) (⟨body.length - e.skip, false, decide (e.skip ≤ body.length)⟩ :: cuts)
+    | ["i", spec] =>
+      match spec.splitOn "/" with
+      | [a, b, c, fl, sp1, sp2] =>
+        let f0 : Fragment := ⟨a.toList, b.toList, c.toList⟩
+        let f := if fl == "1" then flip f0 else f0
+        let start := body.length + e.site.length + sp1.length
+        let stop := start + f.fwd.length + f.seq.length + f.rev.length
+        let okSp := sp1.length == e.skip && sp2.length == e.skip && f.fwd.length == 4 && f.rev.length == 4
+        layout e rest (body ++ e.site ++ sp1.toList ++ f.fwd ++ f.seq ++ f.rev ++ sp2.toList ++ revComp e.site)
+          (⟨stop, false, okSp⟩ :: ⟨start, true, okSp⟩ :: cuts)
+      | _ => none
+    | _ => none
+
+def fragOfText (w : Str) : Fragment := ⟨(w.drop 4).take (w.length - 8), w.take 4, w.drop (w.length - 4)⟩
+
+/-- the fragments a directional digest releases: from a forward cut to the NEXT cut when that is a reverse cut -/
+def releasedPairs : List Cut → List (Nat × Nat)
+  | a :: b :: rest => (if a.fwd && !b.fwd then [(a.pos, b.pos)] else []) ++ releasedPairs (b :: rest)
+  | _ => []
+
+def expectedFragments (body : Str) (cuts : List Cut) (circular : Bool) : List Fragment :=
+  let cuts' := if circular then
+      match cuts with
+      | c :: _ => cuts ++ [{ c with pos := c.pos + body.length }]
+      | [] => []
+    else cuts
+  let w := if circular then body ++ body else body
+  (releasedPairs cuts').map fun (p, q) => fragOfText ((w.drop p).take (q - p))
+
+def lower (s : Str) : Str := s.map Char.toLower
 
 def parsePart (e : Enzyme) (s : String) : Option PartSpec :=
   match s.splitOn "," with
-  | [raw, shape] =>
-    let p : Part := ⟨raw.toList, shape == "C"⟩
-    some ⟨p, [], isDna p.seq && siteCount e p == (0, 0) && (!p.circular || p.seq.length > 0)⟩
-  | [a, b, c, fl, shape, padL, padR, sp1, sp2, rot, pflip] =>
-    let f0 : Fragment := ⟨a.toList, b.toList, c.toList⟩
-    let f := if fl == "1" then flip f0 else f0
-    let insert := e.site ++ sp1.toList ++ f.fwd ++ f.seq ++ f.rev ++ sp2.toList ++ revComp e.site
-    let circ := shape == "C"
-    let body := if circ then Spec.rotl (natOfStr rot) (insert ++ padL.toList ++ padR.toList) else padL.toList ++ insert ++ padR.toList
-    let pf := pflip == "1"
-    let p : Part := ⟨if pf then revComp body else body, circ⟩
-    some ⟨p, [if pf then flip f else f],
-      isDna p.seq && siteCount e p == (1, 1) && sp1.length == e.skip && sp2.length == e.skip &&
-      f.fwd.length == 4 && f.rev.length == 4⟩
+  | [shape, rot, pflip, lc, segs] =>
+    match layout e (splitList "+" segs) [] [] with
+    | none => none
+    | some (body, cuts) =>
+      let circ := shape == "C"
+      let pf := pflip == "1"
+      let rotated := if circ then Spec.rotl (natOfStr rot) body else body
+      let stranded := if pf then revComp rotated else rotated
+      let text := if lc == "1" then lower stranded else stranded
+      let expect0 := expectedFragments body cuts circ
+      let expect := if pf then expect0.map flip else expect0
+      let nF := cuts.countP (·.fwd)
+      let nR := cuts.countP (!·.fwd)
+      let wf := isDna body && siteCount e body circ == (nF, nR) && cuts.all (·.ok) &&
+        (circ && body.length > 0 || !circ && cuts.all fun c => !c.fwd || c.pos + e.skip + 4 ≤ body.length) &&
+        expect.all (fun f => f.fwd.length == 4 && f.rev.length == 4)
+      some ⟨⟨text, circ⟩, expect, wf⟩
   | _ => none
 
 def parseParts (e : Enzyme) (s : String) : Option (List PartSpec) := (splitList ";" s).mapM (parsePart e)
@@ -151,13 +204,19 @@ def ringCodes (vals : List Fragment) (rings : List (List Oriented)) : List (List
   dedupSorted ((rings.map (ringCode vals)).mergeSort natLexLe)
 
 structure SpecSets where
-  all : List Str          -- canonical forms of the molecules of all rings
+  all : List Str          -- canonical forms of the molecules of all rings (= `simple` when not enumerated)
   simple : List Str       -- … of the simple rings
+  pal : List Str          -- … of the rings with a self-complementary junction overhang
+  rep : List Str          -- … of the rings with a repeated junction overhang
+  haveAll : Bool          -- `all`, `pal`, `rep` were enumerated
   nrings : Nat
   enumOk : Bool           -- the two enumerators agree (small pools)
 
-/-- `needAll = false` (designed assemblies proper): only the simple rings are enumerated (the set of ALL closed
-chains of a library contains every multi-lap concatenation of alternatives and is astronomically larger). -/
+def hasPalJunction (os : List Oriented) : Bool := os.any fun o => revComp o.junction == o.junction
+def hasRepJunction (os : List Oriented) : Bool := (os.map (·.junction)).eraseDups.length != os.length
+
+/-- `needAll = false` (designed assemblies, and pools too large for it): only the simple rings are enumerated — the set
+of ALL closed chains of a library contains every multi-lap concatenation of alternatives and is astronomically larger. -/
 def specSets (needAll : Bool) (pool : List Fragment) : SpecSets :=
   let vals := pool.eraseDups
   let rw := ringsWalk (!needAll) pool
@@ -169,7 +228,11 @@ def specSets (needAll : Bool) (pool : List Fragment) : SpecSets :=
   let simpleRings := rw.filter fun os => decide (Simple os)
   let simple := ringKeys vals simpleRings
   let all := if needAll then ringKeys vals rw else simple
-  { all, simple, nrings := (ringCodes vals (if needAll then rw else simpleRings)).length, enumOk }
+  { all, simple,
+    pal := if needAll then ringKeys vals (rw.filter hasPalJunction) else [],
+    rep := if needAll then ringKeys vals (rw.filter hasRepJunction) else [],
+    haveAll := needAll,
+    nrings := (ringCodes vals (if needAll then rw else simpleRings)).length, enumOk }
 
 /-- model: canonical forms of `CircularLigate(pool)` (the same for every arrival order: ligate_schedule) -/
 def modelSet (pool : List Fragment) : List Str :=
@@ -177,12 +240,19 @@ def modelSet (pool : List Fragment) : List Str :=
 
 /-! ### replies -/
 
-/-- `n:c1,c2,…` -/
-def parseRun (s : String) : Option (List Str) :=
+/-- `n:c1:C,c2:C,…` → the returned sequences with their `Circular` flags -/
+def parseRun (s : String) : Option (List (Str × Bool)) :=
   match s.splitOn ":" with
-  | [n, body] =>
-    let cs := if natOfStr n == 0 then [] else (body.splitOn ",").map String.toList
-    if cs.length == natOfStr n then some cs else none
+  | n :: rest =>
+    let body := joinWith ":" rest
+    let items := if natOfStr n == 0 then [] else body.splitOn ","
+    let cs := items.mapM fun it =>
+      match it.splitOn ":" with
+      | [c, fl] => some (c.toList, fl == "C")
+      | _ => none
+    match cs with
+    | some cs => if cs.length == natOfStr n then some cs else none
+    | none => none
   | _ => none
 
 def bucket (n : Nat) : String :=
@@ -192,48 +262,62 @@ structure Setup where
   kind : String
   tag : String
   poolModel : Option (List Fragment)   -- what the model is run on (`gg`: the fragments the real cut returned)
-  poolSpec : List Fragment             -- what the rings are enumerated over (`gg`: the designed fragments)
+  poolSpec : List Fragment             -- what the rings are enumerated over (`gg`: the fragments of the independent layout)
   inDomain : Bool
   cutOk : Bool                         -- `gg`: the real cut released the designed fragments
 
-/-- Designed assemblies proper (generator tag `design…`, overhang set without palindromes and without
-reverse-complement pairs): every fragment has one possible place and orientation, so the expected result is
-EXACTLY the simple rings.  For all other pools the verdict is the sandwich `simple ⊆ result ⊆ all rings`
-(= equality whenever every ring is simple). -/
-def strictTag (tag : String) : Bool := tag.startsWith "design" && !tag.startsWith "design-loose"
-
+/-- The verdict is decided from the POOL, never from the generator's tag:
+* `designed pool` (Spec/Rings.lean — the property's quantifier): the result must EQUAL the set of simple rings
+  (`ligate_designed`); multi-lap concatemers of alternatives are forbidden;
+* any other DNA pool: `simple rings ⊆ result ⊆ all rings` (= equality whenever every ring is simple); pools with more
+  than 9 fragment values that are not designed get the lower bound only (their set of all rings is not enumerated). -/
 def judgeRuns (su : Setup) (race : String) (runs : List String) : Verdict :=
-  let strict := strictTag su.tag
-  let sp := specSets (!strict) su.poolSpec
+  let isDesigned := designed su.poolSpec
+  let nvals := su.poolSpec.eraseDups.length
+  let sp := specSets (!isDesigned && nvals ≤ 9) su.poolSpec
   let parsed := runs.map parseRun
-  let cls0 := su.kind ++ "/" ++ su.tag ++ "/rings=" ++ bucket sp.nrings ++
-    (if strict || sp.all == sp.simple then "/exact" else "/sandwich")
+  let mode := if isDesigned then "designed" else if sp.haveAll then (if sp.all == sp.simple then "allsimple" else "sandwich") else "lower-bound"
+  let flags := (if sp.pal.isEmpty then "" else "+pal") ++ (if sp.rep.isEmpty then "" else "+rep")
+  let cls0 := su.kind ++ "/" ++ su.tag ++ "/rings=" ++ bucket sp.nrings ++ "/" ++ mode ++ flags
   let triv := su.poolSpec.length < 2 || sp.nrings == 0
   match su.poolModel, parsed.mapM id with
   | some pm, some rs =>
     let m := modelSet pm
-    let sets := rs.map fun cs => sortStrs (cs.map fun c => keyStr (keyFast c))
+    let sets := rs.map fun cs => sortStrs (cs.map fun c => keyStr (keyFast c.1))
     let corr := sets.all (· == m) && runs.length == 4
     let distinct := sets.all fun s => dedupSorted s == s
     let s0 := sets.headD []
     let stable := sets.all (· == s0)
-    let sound := sets.all fun s => subsetSorted s (if strict then sp.simple else sp.all)
+    let upper := if isDesigned then sp.simple else sp.all
+    let sound := !(isDesigned || sp.haveAll) || sets.all fun s => subsetSorted s upper
     let complete := sets.all fun s => subsetSorted sp.simple s
-    let keyOk := rs.all fun cs => cs.all fun c => c.length > 200 || keyFast c == key c
+    let circular := rs.all fun cs => cs.all (·.2)
+    let keyOk := rs.all fun cs => cs.all fun c => c.1.length > 200 || keyFast c.1 == key c.1
     let raceOk := race == "norace"
-    let j := sound && complete && distinct && stable && raceOk && sp.enumOk && keyOk && su.cutOk && runs.length == 4
+    let j := sound && complete && distinct && stable && circular && raceOk && sp.enumOk && keyOk && su.cutOk && runs.length == 4
+    -- where the real result lies
+    let missing := sp.all.filter fun k => !s0.contains k
+    let where_ := if s0 == sp.simple then "=simple" else if sp.haveAll && s0 == sp.all then "=all"
+      else if subsetSorted sp.simple s0 && subsetSorted s0 upper then "between" else "outside"
+    let miss := (if missing.any sp.pal.contains then "/missing-ring:pal" else "") ++
+      (if missing.any (fun k => sp.rep.contains k && !sp.pal.contains k) then "/missing-ring:repeat" else "")
     let why := (if sound then "" else " spurious-construct") ++ (if complete then "" else " ring-missing") ++
       (if distinct then "" else " same-molecule-twice") ++ (if stable then "" else " depends-on-input-order") ++
+      (if circular then "" else " construct-not-marked-circular") ++
       (if raceOk then "" else " data-race-reported") ++ (if sp.enumOk then "" else " spec-enumerators-disagree") ++
-      (if keyOk then "" else " fast-key-differs") ++ (if su.cutOk then "" else " cut-fragments-differ-from-design")
+      (if keyOk then "" else " fast-key-differs") ++ (if su.cutOk then "" else " cut-fragments-differ-from-layout")
     { corr, judge := if su.inDomain then some j else none,
-      cls := (if triv then "triv:" else "") ++ cls0 ++ (if raceOk then "" else "/race"),
+      cls := (if triv then "triv:" else "") ++ cls0 ++ "/" ++ where_ ++ miss ++ (if raceOk then "" else "/race"),
       detail := if corr && j then "" else
         "why:" ++ why ++ " model=" ++ joinWith "," (m.map String.ofList) ++ " rings=" ++ joinWith "," (sp.all.map String.ofList) ++
         " simple=" ++ joinWith "," (sp.simple.map String.ofList) }
   | _, _ => { corr := false, judge := if su.inDomain then some false else none, cls := cls0 ++ "/bad-reply", detail := "unparsable reply" }
 
+def sortFrags (l : List Fragment) : List String := (l.map fragText).mergeSort fun a b => a ≤ b
+
 def judge (f out : List String) : Verdict :=
+  -- circuit breaker of the harness (three calls of this run did not return): the case was not executed
+  if out == ["ok", "not-run"] then { corr := true, judge := none, cls := "triv:not-run-after-3-timeouts" } else
   match f with
   | ["lig", tag, frags, p1, p2, p3] =>
     match parsePool frags with
@@ -259,14 +343,19 @@ def judge (f out : List String) : Verdict :=
       | none => { corr := false, judge := none, cls := "bad-case" }
       | some ps =>
         let permsOk := [p1, p2, p3].all fun p => validPerm ps.length (parseNats p)
-        let designed := ps.flatMap (·.expect)
-        let inDom := ps.all (·.wf) && dnaPool designed && permsOk
+        let designedFrags := ps.flatMap (·.expect)
+        let inDom := ps.all (·.wf) && dnaPool designedFrags && permsOk
         match out with
         | ["ok", race, r0, r1, r2, r3, cut] =>
           let real := (if ps.isEmpty then [] else cut.splitOn "|").map parsePool
           let realPool := (real.mapM id).map List.flatten
-          let cutOk := real.length == ps.length && (real.zip ps).all fun (r, p) => r == some p.expect
-          let su : Setup := { kind := "gg:" ++ enz, tag, poolModel := realPool, poolSpec := designed, inDomain := inDom, cutOk }
+          -- per part, as multisets (the order within a part depends on where a circular carrier starts)
+          let cutOk := real.length == ps.length && (real.zip ps).all fun (r, p) =>
+            match r with
+            | some fr => sortFrags fr == sortFrags p.expect
+            | none => false
+          let multi := if ps.any (fun p => p.expect.length ≥ 2) then "+multi" else ""
+          let su : Setup := { kind := "gg:" ++ enz, tag := tag ++ multi, poolModel := realPool, poolSpec := designedFrags, inDomain := inDom, cutOk }
           judgeRuns su race [r0, r1, r2, r3]
         | st :: _ =>
           { corr := false, judge := if inDom then some false else none, cls := "gg/" ++ tag ++ "/" ++ st, detail := "model returns" }
